@@ -1,0 +1,31 @@
+//go:build verif
+
+package jsonx
+
+import (
+	"bytes"
+
+	"shanhu.io/g/lexing"
+)
+
+// VerifC08Tokens returns the token stream the jsonx parser reads (lexer,
+// semicolon inserter, keyworder; up to and including EOF) and the lexer's
+// errors.
+func VerifC08Tokens(input []byte) ([]*lexing.Token, []*lexing.Error) {
+	return lexing.Tokens(tokener("", bytes.NewReader(input)))
+}
+
+// VerifC08Decoder returns a decoder over input and a function that reports
+// how many tokens its parser has pulled from the tokener so far.
+func VerifC08Decoder(input []byte) (*Decoder, func() int) {
+	p, rec := newParser("", bytes.NewReader(input))
+	return &Decoder{p: p}, func() int { return len(rec.Tokens()) }
+}
+
+// VerifC08ToJSONParse is the parse phase of ToJSON: the errors it would
+// return and the number of tokens pulled.
+func VerifC08ToJSONParse(input []byte) ([]*lexing.Error, int) {
+	p, rec := newParser("", bytes.NewReader(input))
+	parseValue(p)
+	return p.Errs(), len(rec.Tokens())
+}
